@@ -14,8 +14,8 @@
 EXTENDS Vocab, Naturals, TLC, Json, FiniteSets, Sequences
 
 VarRoles == {"plain", "count", "key", "rxkey", "neg", "negkey", "negrx", "macro", "macrokey", "setvarkey", "ctltarget", "updatetarget"}
-OpArgs == {"good", "empty", "macro", "weird", "negated"}
-ActSpellings == {"bare", "value", "quoted", "empty", "macro", "plus", "minus", "bang", "dup", "upper"}
+OpArgs == {"good", "empty", "macro", "openmacro", "weird", "negated"}
+ActSpellings == {"bare", "value", "quoted", "empty", "macro", "openmacro", "emptymacro", "plus", "minus", "bang", "dup", "upper"}
 CtlVals == {"good", "boundary", "negative", "garbage", "empty"}
 DirVals == {"good", "boundary", "negative", "garbage", "empty", "quoted"}
 
